@@ -31,14 +31,19 @@ import (
 func init() {
 	kit.Register(&kit.Spec{
 		ID:     "C25",
-		Rule:   "for every arbiter-set size n=1..72 (n owned by shard (n-1)%shards) several arbiter sets (origin / DPoS / CRC member types, optional inactive CRC members, optional duplicated member) x ~60 confirm scenarios: k distinct valid accept votes for k around floor(2n/3), and confirms ONE SHORT of the quorum padded with junk (duplicate votes, re-signed and malleated duplicates, rejects, foreign signers, negated keys, wrong proposal hash, signatures over other data / corrupted / wrong length, impersonation, inactive members, uncompressed and hybrid key encodings, malformed keys), sponsor variations, wrong block binding; each evaluated as an in-memory payload.Confirm and after a wire round trip. distinct = (n, set, scenario, form); non-trivial = the confirm carries at least one vote and a decodable sponsor key, so both halves ran their loops",
-		Shards: func(tier string) int { return 8 },
+		Rule:   "for every arbiter-set size n=1..72 (n owned by shard (n-1)%shards) several arbiter sets (origin / DPoS / CRC member types, optional inactive CRC members, optional duplicated member) x ~60 confirm scenarios: k distinct valid accept votes for k around floor(2n/3), and confirms ONE SHORT of the quorum padded with junk (duplicate votes, re-signed and malleated duplicates, rejects, foreign signers, negated keys, wrong proposal hash, signatures over other data / corrupted / wrong length, impersonation, inactive members, uncompressed and hybrid key encodings, malformed keys), sponsor variations, wrong block binding; each evaluated as an in-memory payload.Confirm and after a wire round trip; STRUCTURED vote lists (valid votes of d<=floor(2n/3) signers repeated up to L in {d,T+1,T+2,n,2n-u} followed by / preceded by / interleaved with / around u unverifiable votes that merely name other arbiters: garbage, zero, wrong-hash signatures; total length up to 2n, fixed orders, not shuffled); shards 8-9: DELIVERY ORDER through the real mempool.BlockPool of a dpos-era chain (n=4 CRC-only, n=7 after the producer election): honest and forged confirms delivered confirm-first / with the block / block-first, then the chain tip and the confirm stored with the block are compared with the model. distinct = (n, set, scenario, form) resp. (stage, kind, order, round); non-trivial = the confirm carries at least one vote and a decodable sponsor key, so both halves ran their loops",
+		Shards: func(tier string) int { return c25SweepShards + 2 }, // 8 function-level sweep shards + 2 delivery-order shards (n=4 CRC-only stage, n=7 after the producer election)
 		Run:    runC25,
 		Require: []string{"cases", "accepted", "rejected", "honest_quorum_accepted", "one_short_rejected",
 			"padded_rejected", "sponsor_cases_rejected", "threshold_checks", "intersection_pairs",
 			"wire_roundtrips", "block_binding_rejected", "block_binding_accepted", "sets_with_inactive",
 			"model_valid_votes", "model_invalid_votes", "mock_context_agree", "context_nil_sanity_err",
-			"threshold_checks_large", "empty_set_rejected", "wire_undecodable"},
+			"threshold_checks_large", "empty_set_rejected", "wire_undecodable",
+			"struct_cases", "struct_rejected", "struct_valid_first", "struct_tail_first", "struct_len_over_n",
+			"e2e_trials", "e2e_order_confirm-first", "e2e_order_with-block", "e2e_order_block-first",
+			"e2e_model_rejected_confirms", "e2e_forged_not_connected", "e2e_forged_not_connected_confirm-first",
+			"e2e_honest_connected_confirm-first", "e2e_honest_connected_with-block", "e2e_honest_connected_block-first",
+			"e2e_connected_on_model_accepted_confirm"},
 		Assumptions: []string{
 			"crypto/ecdsa, crypto/elliptic, crypto/sha256 of the Go standard library are correct (the real code verifies with the same library; the model re-derives digests, encodings, keys and signatures itself)",
 			"the arbiter set is injected into the exported field Arbiters.CurrentArbitrators of a real state.Arbiters (no election is run); the threshold and membership answers come from the real object",
@@ -56,7 +61,9 @@ type c25Scen struct {
 	k            int  // number of distinct valid votes intended
 	memOnly      bool
 	wirePatch    func(b []byte) []byte // optional patch of the serialised confirm
-	block        *types.Block          // optional: block for checkBlockWithConfirmation
+	structOrder  string
+	structured   bool         // fixed-order list: valid duplicates + unverifiable votes naming other arbiters
+	block        *types.Block // optional: block for checkBlockWithConfirmation
 	blockMatches bool
 }
 
@@ -181,7 +188,17 @@ func c25Block(r *rand.Rand) *types.Block {
 	return b
 }
 
+const c25SweepShards = 8
+
 func runC25(c *kit.Ctx) {
+	if c.Shard >= c25SweepShards {
+		stage := "crc-only"
+		if c.Shard > c25SweepShards {
+			stage = "producers"
+		}
+		runC25E2E(c, stage)
+		return
+	}
 	r := c.Rand("c25")
 	nd, err := node.Start(node.Options{Dir: c.WorkDir})
 	if err != nil {
@@ -275,7 +292,7 @@ func runC25(c *kit.Ctx) {
 	sampleLabels := map[string]bool{"honest-k=T": true, "honest-k=T+1": true, "pad1-dup-resigned": true, "padN-foreign": true}
 
 	for n := 1; n <= 72; n++ {
-		if (n-1)%c.Shards != c.Shard {
+		if (n-1)%c25SweepShards != c.Shard {
 			continue
 		}
 		T := 2 * n / 3 // model threshold: strictly more than floor(2n/3) are needed
@@ -366,7 +383,17 @@ func runC25(c *kit.Ctx) {
 						context = blockchain.ConfirmContextCheck(conf)
 					})
 					c.Inc("cases")
-					c.Inc("scen_" + sc.label)
+					if !sc.structured {
+						c.Inc("scen_" + sc.label)
+					}
+					if sc.structured {
+						c.Inc("struct_cases")
+						c.Inc("struct_" + sc.structOrder)
+						if len(sc.conf.votes) > n {
+							c.Inc("struct_len_over_n")
+						}
+						c.Max("max:struct_votes_over_n_x100", int64(100*len(sc.conf.votes)/n))
+					}
 					c.Case(id, len(sc.conf.votes) > 0 && evf.sponsorDecodes)
 					c.Count("model_valid_votes", int64(evf.validVotes))
 					c.Count("model_invalid_votes", int64(evf.invalidVotes))
@@ -445,6 +472,9 @@ func runC25(c *kit.Ctx) {
 							c.Inc("sponsor_cases_rejected")
 						case !sc.honest && len(evf.distinctNormal) <= T:
 							c.Inc("padded_rejected")
+							if sc.structured {
+								c.Inc("struct_rejected")
+							}
 						case !sc.honest:
 							c.Inc("quorum_plus_junk_rejected") // stricter than the property, fine
 						}
@@ -961,6 +991,137 @@ func c25Scenarios(r *rand.Rand, set *c25Set, T int, foreign []*mKey) []*c25Scen 
 				}
 				return nb
 			}})
+		}
+	}
+
+	// ---- G: structured (NOT shuffled) vote lists ----
+	// L valid votes of only d <= T distinct signers (duplicates), plus u votes
+	// that merely NAME other current arbiters and cannot be verified. A checker
+	// that stops verifying early, counts verified votes instead of distinct
+	// signers, or verifies only a prefix/suffix accepts these.
+	if maxK >= 2 && T >= 1 {
+		type combo struct {
+			d, L, u     int
+			dn, ln, un  string
+			order, tail string
+		}
+		orders := []string{"valid_first", "tail_first", "interleaved", "sandwich", "valid_around_tail"}
+		tails := []string{"garbage-sig", "zero-sig", "wrong-hash", "mixed"}
+		dOpts := []struct {
+			v int
+			n string
+		}{{1, "d=1"}}
+		if T >= 2 && maxK >= 3 {
+			dOpts = append(dOpts, struct {
+				v int
+				n string
+			}{2, "d=2"})
+		}
+		if T >= 3 && maxK > T {
+			dOpts = append(dOpts, struct {
+				v int
+				n string
+			}{T, "d=T"})
+		}
+		build := func(cb combo) *c25Scen {
+			sel := pick(maxK)
+			dset, others := sel[:cb.d], sel[cb.d:]
+			var vp, tp []mVote
+			for j := 0; j < cb.L; j++ {
+				vp = append(vp, valid(dset[j%cb.d]))
+			}
+			for j := 0; j < cb.u && j < len(others); j++ {
+				k := set.keys[others[j]]
+				kind := cb.tail
+				if kind == "mixed" {
+					kind = tails[j%3]
+				}
+				switch kind {
+				case "garbage-sig":
+					sg := make([]byte, 64)
+					r.Read(sg)
+					tp = append(tp, mVote{hash: ph, signer: k.comp, accept: true, sig: sg})
+				case "zero-sig":
+					tp = append(tp, mVote{hash: ph, signer: k.comp, accept: true, sig: make([]byte, 64)})
+				default: // a genuine vote of that arbiter, for another proposal
+					tp = append(tp, signedBy(k, ph2, k.comp, true))
+				}
+			}
+			var votes []mVote
+			switch cb.order {
+			case "valid_first":
+				votes = append(append(votes, vp...), tp...)
+			case "tail_first":
+				votes = append(append(votes, tp...), vp...)
+			case "interleaved":
+				for i := 0; i < len(vp) || i < len(tp); i++ {
+					if i < len(vp) {
+						votes = append(votes, vp[i])
+					}
+					if i < len(tp) {
+						votes = append(votes, tp[i])
+					}
+				}
+			case "sandwich": // tail | valid | tail
+				h := len(tp) / 2
+				votes = append(append(append(votes, tp[:h]...), vp...), tp[h:]...)
+			default: // valid | tail | valid
+				h := (len(vp) + 1) / 2
+				votes = append(append(append(votes, vp[:h]...), tp...), vp[h:]...)
+			}
+			cf := &mConfirm{sponsor: P.sponsor, blockHash: P.blockHash, viewOffset: P.viewOffset, sig: P.sig, votes: votes}
+			return &c25Scen{label: "struct-" + cb.order + "-" + cb.tail + "-" + cb.dn + "-" + cb.ln + "-" + cb.un, class: "valid-duplicates+unverified-named-arbiters",
+				conf: cf, k: cb.d, structured: true, structOrder: cb.order}
+		}
+		mkCombo := func(di, li, ui int, order, tail string) (combo, bool) {
+			d := dOpts[di]
+			othersN := maxK - d.v
+			if othersN < 1 {
+				return combo{}, false
+			}
+			var u int
+			var un string
+			if ui == 0 {
+				u, un = imin(T+1-d.v, othersN), "u=quorum-d"
+			} else {
+				u, un = othersN, "u=all-others"
+			}
+			if u < 1 {
+				u = 1
+			}
+			ls := []struct {
+				v int
+				n string
+			}{{d.v, "L=d"}, {T + 1, "L=T+1"}, {T + 2, "L=T+2"}, {n, "L=n"}, {2*n - u, "L=2n-u"}}
+			l := ls[li%len(ls)]
+			if l.v < d.v {
+				l.v = d.v
+			}
+			if l.v+u > 2*n {
+				l.v = 2*n - u
+			}
+			return combo{d: d.v, L: l.v, u: u, dn: d.n, ln: l.n, un: un, order: order, tail: tail}, true
+		}
+		seen := map[string]bool{}
+		emit := func(cb combo, ok bool) {
+			if !ok {
+				return
+			}
+			sc := build(cb)
+			if seen[sc.label] {
+				return
+			}
+			seen[sc.label] = true
+			out = append(out, sc)
+		}
+		// always: one signer repeated to exactly quorum size / beyond, every order
+		for _, o := range orders {
+			emit(mkCombo(0, 1, 0, o, "garbage-sig"))
+			emit(mkCombo(0, 2+r.Intn(3), 1, o, tails[1+r.Intn(3)]))
+		}
+		// plus random members of the grid
+		for x := 0; x < 8; x++ {
+			emit(mkCombo(r.Intn(len(dOpts)), r.Intn(5), r.Intn(2), orders[r.Intn(len(orders))], tails[r.Intn(len(tails))]))
 		}
 	}
 	return out
